@@ -1978,7 +1978,7 @@ class C14(Prop):
     profiles = ["ovf", "wrap"]
     rule = ("strings offered as header / data lines (valid and malformed), (name,size,strand,start,end) string tuples offered to "
             "Sequence::try_from_str_parts with values at 0, 1, size, size±1, 2^32, u64::MAX and beyond, (size,dt,dq,kind) tuples offered "
-            "to Record::try_new; both arithmetic configurations; judge = the statement of C14 on the implementation's output "
+            "to Record::try_new, numerals offered to u64/usize::from_str directly (signs, leading zeros, 2^64 boundary, non-ASCII digits); both arithmetic configurations; judge = the statement of C14 on the implementation's output "
             "(start<=end<=size, kind by field count, gaps iff non-terminating, '+' start..end, '-' size-start down to size-end, "
             "end>size never wrapped or panicking); non-trivial = accepted value at a boundary, or end>size; distinct by input")
 
@@ -2000,6 +2000,12 @@ class C14(Prop):
                 if rng.random() < 0.08:
                     parts[rng.choice([1, 3, 4])] = rng.choice(["", "x", "18446744073709551616", "-1", "+7", "007"])
                 yield {"kind": "seq", "parts": parts}
+            elif r < 0.93:
+                base = rng.choice(["0", "7", "42", "18446744073709551615", "18446744073709551616", "18446744073709551614",
+                                   "99999999999999999999", "00000000000000000000000007", str(rng.randint(0, 10 ** 21))])
+                deco = rng.choice(["", "", "", "+", "-", "++", " ", "0", "0x", "\uff11"])
+                tail = rng.choice(["", "", "", " ", "\r", "_", "a", ".0", "\u0663"])
+                yield {"kind": "num", "text": rng.choice(["", "+", "-", deco + base + tail, base])}
             else:
                 v = lambda: rng.choice([None, 0, 1, U64, rng.randint(0, 100)])
                 yield {"kind": "rec_new", "size": rng.choice([0, 1, U64, rng.randint(0, 99)]), "dt": v(), "dq": v(), "k": rng.choice("TN")}
@@ -2008,6 +2014,8 @@ class C14(Prop):
         ev = Eval()
         if case["kind"] == "line":
             req = "line " + hx(case["text"])
+        elif case["kind"] == "num":
+            req = "num " + hx(case["text"])
         elif case["kind"] == "seq":
             req = "seq " + " ".join(hx(p) for p in case["parts"])
         else:
@@ -2024,7 +2032,15 @@ class C14(Prop):
         if w != i:
             ev.judge = "result depends on the arithmetic configuration: checked %s, unchecked %s" % (i[:200], w[:200])
             return ev
-        if case["kind"] == "line" and i.startswith("ok header"):
+        if case["kind"] == "num":
+            t = case["text"]
+            body = t[1:] if t.startswith("+") else t
+            ok = body != "" and all(c in "0123456789" for c in body) and int(body) <= U64
+            want = "ok %d" % int(body) if ok else "err"
+            if i != want:
+                ev.judge = "number %r: expected %s, got %s" % (t, want, i)
+            ev.nontrivial = t
+        elif case["kind"] == "line" and i.startswith("ok header"):
             t = i.split(" print=")[0].split(" ")
             for s in (t[3], t[4]):
                 name, size, strand, a, b = s.rsplit(",", 4)
